@@ -7,6 +7,8 @@ import (
 	"strings"
 
 	"github.com/dtn7/dtn7-go/pkg/bpv7"
+	"github.com/dtn7/dtn7-go/pkg/cla"
+	"github.com/dtn7/dtn7-go/pkg/routing"
 	"github.com/dtn7/dtn7-go/verif/ev"
 	"github.com/dtn7/dtn7-go/verif/gen"
 	"github.com/dtn7/dtn7-go/verif/ref"
@@ -99,6 +101,55 @@ func nhConcSetup(arg json.RawMessage) (func(), func(vrt.Result) (string, string,
 			return obs, "", ""
 		}
 		return body, judge, cleanup
+	case "vectors":
+		// PRoPHET: the handler thread processes "peer appeared" (encounter, summary vector sent to the peer through the
+		// store and the per-peer sender goroutines) and then a summary vector received from another peer (transitive
+		// update), while the ageing job runs in the cron thread. The node's own predictability map is a tracked map:
+		// a write to it while another thread iterates over it (serialisation of a metadata block that shares the map)
+		// is what the Go runtime aborts the process for.
+		for _, p := range peers[:len(peers)-1] {
+			n.setOutcome(p, true)
+			n.peerUp(p)
+		}
+		vrt.UntrackMaps()
+		vrt.TrackMap(routing.VerifProphetLive(n.core.VerifAlgorithm()), "Prophet.predictabilities")
+		newcomer := peers[len(peers)-1]
+		n.setOutcome(newcomer, true)
+		np := n.peer(newcomer)
+		np.up = true
+		n.core.RegisterConvergable(np)
+		vec := gen.Spec{Dst: nhNodeID, Src: "dtn://r1/", Rpt: "dtn://r1/", PCRC: 2, Time: DtnNow(), Lifetime: 60000, PayLen: 1, Flags: 4, PaySeed: 3, Seq: 7,
+			Ext: []gen.BSpec{{Kind: "prophet", S: []string{"dtn://dest/", "dtn://r2/"}, F: []uint64{0x3fe0000000000000, 0x3fd0000000000000}}}}.Build()
+		before := n.nSends()
+		body := func() {
+			var wg vsync.WaitGroup
+			wg.Add(1)
+			vrt.Go("harness", func() { // the cron thread
+				defer wg.Done()
+				n.runCron("dtlsr_recompute") // the name PRoPHET registers its ageing job under
+			})
+			n.core.VerifHandle(cla.NewConvergencePeerAppeared(np, np.GetPeerEndpointID()))
+			n.core.VerifHandle(cla.NewConvergenceReceivedBundle(n.peer("r1"), gen.MustEID(nhNodeID), &vec))
+			wg.Wait()
+		}
+		judge := func(res vrt.Result) (obs, key, desc string) {
+			vrt.UntrackMaps()
+			got := 0
+			for _, sd := range n.sendsSince(before) {
+				if sd.Peer == newcomer {
+					got++
+				}
+			}
+			obs = fmt.Sprintf("vectors-to-newcomer=%d", got)
+			if len(res.Faults) > 0 {
+				return obs + " fault", "concurrent-map-iteration-and-write", "the Go runtime aborts the process when these overlap: " + res.Faults[0]
+			}
+			if got == 0 {
+				return obs, "no-summary-vector-for-new-peer", "a peer appeared but no metadata bundle was handed to it"
+			}
+			return obs, "", ""
+		}
+		return body, judge, func() { vrt.UntrackMaps(); n.destroy() }
 	case "submit":
 		var bs []bpv7.Bundle
 		for i := 0; i < a.N; i++ {
